@@ -12,7 +12,8 @@ EXPLANATION = (
     "constants in back() and inflate_fast_back() as in inflate's copies; HLIT/HDIST/HCLEN extraction and inflate_table root "
     "bits agree; ORDER tables agree. GUARD: in back(), every `*next` read is reached only after a `have != 0` edge since the "
     "last change of `have`; every `*put` store only after `left != 0` (or the window hand-off) since the last change of `left`; "
-    "the stored-block ptr::copy count is min(length, have, left). WHO: back/fast_back use only buffer_size() and the *_back copy "
+    "the stored-block ptr::copy count is min(length, have, left); inflate_fast_back is entered, and its loop continues, only under "
+    "`have >= 15 && left >= 260` (one iteration can store two literals and a 258-byte match into the unpadded window). WHO: back/fast_back use only buffer_size() and the *_back copy "
     "variants. CONST: inflateBackInit_ builds a window of exactly 1 << windowBits after the [8,15] test. ABORT: inventory from "
     "inflateBack*. Exit codes: BufError on input exhaustion/output failure, StreamEnd in Done, DataError in Bad. Byte equality with "
     "inflate is not decided.")
@@ -317,6 +318,10 @@ def run(ck):
     ck.decide(tabs(BACK) == tabs(decoders.DISPATCH) and len(tabs(BACK)) == 3, "SIB/inflate-table-args", "back~dispatch", "same (type, root bits) triples",
               "back() builds tables with %s, dispatch with %s" % (tabs(BACK), tabs(decoders.DISPATCH)))
     raw_guards(ck, P)
+    # the window has no padding: the fast loop of inflateBack may only run (and continue) with the full margins
+    from . import c02
+    c02.guard_calls(ck, P, only={"fast-entry@back"})
+    c02.loop_backedge_guard(ck, P, only={c02.FAST_BACK})
     who(ck, P)
     init_const(ck, P)
     exits(ck, P)
